@@ -684,3 +684,23 @@ pub fn result_json(ctx: &Ctx, meta: &PropMeta, out: RunOutput, wall_s: f64) -> V
         "wall_s": wall_s,
     })
 }
+
+
+/// "Straddlers": strings in which, for every byte offset c up to the given reach, some variant has a multi-byte
+/// character lying across c — j ASCII characters (j = 0, 1) followed by a run of 2-byte characters, and the same with
+/// 3- and 4-byte characters (j = 0..=3).  Whatever position an implementation cuts a text at (`&s[..40]`,
+/// `truncate(512)`, a fixed buffer) to build a message or a key, one of these makes the cut fall inside a character.
+pub fn straddlers(reach: usize) -> Vec<String> {
+    let mut v = vec![];
+    for (ch, w) in [('é', 2usize), ('日', 3), ('🕰', 4)] {
+        for j in 0..w {
+            let n = reach / w + 2;
+            let mut s = "a".repeat(j);
+            for _ in 0..n {
+                s.push(ch);
+            }
+            v.push(s);
+        }
+    }
+    v
+}
